@@ -441,7 +441,9 @@ def _oracle(case, obs, part, book, lat):
                 for ln in range(bc):
                     if (be >> (ln * lb)) & lfull:
                         need |= lane_required_bytes(cfg, ln)
-                if need & ~weW:
+                if need & ~weW and not (al == "lane_unaligned" and bcl != "full"):
+                    # (lanes whose stored width is not a whole number of bytes share bytes with their neighbours: a partial write cannot be
+                    #  expressed with byte enables at all there; the property only asks that it is REPORTED, which we_error_missing checks)
                     clause = "C15.we_widen_full" if bcl == "full" else "C15.we_widen_cover"
                     F(clause, al + "/" + bcl,
                       "write we=%s (%s): memory-side enables %s do not cover the bytes %s holding the stored code words of the enabled lanes (missing %s)"
@@ -567,6 +569,8 @@ def _oracle(case, obs, part, book, lat):
             recs.append(dict(kind="meta", cls="clear of non-zero counters"))
     if is_be:
         remap = {"C15.clean_data": "C15.be_readback", "C15.clean_counter": "C15.be_readback", "C15.counter_spurious": "C15.be_readback"}
+        if al == "lane_unaligned":
+            fs = [f for f in fs if f["clause"] not in remap]       # read-back after a partial write is unspecified when lanes share bytes
         for f in fs:
             if f["clause"] in remap:
                 f["key"] = al + "/" + f["clause"][4:] + "/" + ck
